@@ -7,7 +7,8 @@ CONSTANTS Depth, PrimLeaves, Wrappers, MapKeys, ExtraDepth
 VARIABLE t
 
 P(n) == [k |-> "prim", n |-> n]
-Leaves == {P(n) : n \in PrimLeaves} \cup {[k |-> "user", n |-> "User", args |-> <<>>], [k |-> "param", n |-> "T"]}
+\* Ren: a user type defined with serde(rename = "RenDto"); every reference must use the name it is defined under
+Leaves == {P(n) : n \in PrimLeaves} \cup {[k |-> "user", n |-> "User", args |-> <<>>], [k |-> "user", n |-> "Ren", args |-> <<>>], [k |-> "param", n |-> "T"]}
 KeyOf(n) == IF n = "User" THEN [k |-> "user", n |-> "User", args |-> <<>>] ELSE P(n)
 
 RECURSIVE E(_)
@@ -23,7 +24,9 @@ Next == UNCHANGED t
 
 \* every tree is generated under each configuration: no mapping / a mapping of the user type / a Swift-Kotlin prefix /
 \* prefix AND mapping together (the mapped name is used exactly as configured: TypeExpr!Conf never prefixes it)
-Configs == {"base", "mapped", "prefixed", "prefixed_mapped", "mapped_container"}      \* the last: "Vec<u8>" = Name (TypeScript, Go, Python)
+\* lang_options: the file-only backend options (Go no_pointer_slice / uppercase_acronyms, Swift decorators and constraints) - they
+\* re-shape members and helper text but never the translated type
+Configs == {"base", "mapped", "prefixed", "prefixed_mapped", "mapped_container", "lang_options"}      \* mapped_container: "Vec<u8>" = Name (TypeScript, Go, Python)
 Emit == PrintT(<<"REPLAY", ToJson([rust |-> t, abs |-> Abs(t), configs |-> Configs])>>)
 
 \* theorems about the specification itself
